@@ -24,6 +24,9 @@ pub fn install() {
         } else {
             "<non-string panic>".to_string()
         };
+        if std::env::var_os("VERIF_BT").is_some() {
+            eprintln!("panic at {file}:{line}:{}: {msg}\n{}", info.location().map(|l| l.column()).unwrap_or(0), std::backtrace::Backtrace::force_capture());
+        }
         if let Ok(mut g) = FIRST.lock() {
             if g.is_none() {
                 *g = Some(PanicRecord { file, line, msg });
